@@ -313,7 +313,7 @@ pub struct CommodityFormatSpec {
 }
 
 /// Key represents the field abstracted way.
-#[derive(Debug, PartialEq, Eq, Hash, Copy, Clone, Serialize, Deserialize)]
+#[derive(Debug, PartialEq, Eq, PartialOrd, Ord, Hash, Copy, Clone, Serialize, Deserialize)]
 #[serde(rename_all = "snake_case")]
 pub enum FieldKey {
     /// Date of the transaction.
